@@ -22,6 +22,10 @@ Engine L (sub-check data_alphabet): the DATA rather than the history is varied -
 nearly constant coefficients, a single frame, zeros, large / tiny / mixed magnitudes, float32 /
 float64, 1..1000 frames - saved to a fresh path of every target kind and reloaded; the reloaded
 object's apply() must be bit-identical to the saving object's.
+
+Engine L (sub-check resave): what the path holds BEFORE the save is varied - statistics of another
+feature dimension (wider / narrower / equal) saved there by a real object, or the bytes of another
+target kind's writer - so that the new contents are shorter or longer than the old ones.
 """
 import copy
 import hashlib
@@ -48,6 +52,16 @@ ASSUMPTIONS = [
     "constant coefficient, all zeros, large, tiny, mixed magnitudes, nearly constant) x float32/float64 x "
     "frame counts {1,2,3,7,10,100,257,1000}, accumulated as one tensor or frame by frame; where apply() is not "
     "defined by a formula (zero variance) the reloaded object is compared with the saving object only",
+    "resave: F1, F2 in {1, 2, 3, 5} coefficients, 4 frames of generic data (first writer positive, second "
+    "negative sums), float32/float64, 11 targets; foreign first contents are numpy.save / numpy.savez / tobytes "
+    "of the first object's statistics matrix; an .npz target with overwrite=False over a non-archive is left "
+    "open by the docstring ('loaded first if possible') and not in the lattice",
+    "live_histories: 9 letters (3 accumulate pieces, 5 save calls on a.npy / a.bin / a.npz, 'go on with another "
+    "object that accumulated the negative piece'), every sequence of 3 (quick) / 5 (thorough) letters from "
+    "{pos, none} x {empty, foreign}; one new directory per history, so state keyed by file name cannot leak "
+    "between histories; a violation of save_history_bfs that does not show when its history runs alone is "
+    "tagged needs_other_histories and replayed by re-running the search up to that transition",
+    "the pre-existing foreign a.bin of save_history_bfs is 200 bytes, longer than any statistics saved there",
     "numpy.load / numpy.save(z) and zipfile are trusted to decode what was written; raw files are "
     "reloaded with force_as='file' and no dtype, npz entries with key=<name> (no key for 'arr_0')",
 ]
@@ -103,8 +117,20 @@ def _arr(a):
     return (a.dtype.str, tuple(a.shape), a.tobytes())
 
 
+_DECODED = {}
+
+
 def _decode(name, data):
-    """decoded, hashable contents of one file"""
+    """decoded, hashable contents of one file (memoised on suffix and bytes: pure)"""
+    k = (name[-4:], data)
+    if k not in _DECODED:
+        if len(_DECODED) > 20000:
+            _DECODED.clear()
+        _DECODED[k] = _decode_bytes(name, data)
+    return _DECODED[k]
+
+
+def _decode_bytes(name, data):
     try:
         if name.endswith(".npy"):
             return ("npy", _arr(np.load(io.BytesIO(data), allow_pickle=False)))
@@ -118,7 +144,7 @@ def _decode(name, data):
 
 class Ctx:
     def __init__(self, c, seed, scratch):
-        self.c, self.dir = c, scratch
+        self.c, self.dir, self.root, self.count = c, scratch, scratch, 0
         self.depth = c["depth"]
         self.norm_var = bool(c.get("norm_var", True))
         self.pieces = dict((n, _piece(seed, n)) for n in PIECES + ("small_neg", "big", "const", "single"))
@@ -132,6 +158,16 @@ class Ctx:
                 for f in range(F):
                     s[f] += float(row[f])
         return s
+
+    def new_dir(self):
+        """a directory nothing in this process has used before: state the implementation keys by
+        file NAME (a cache of loaded statistics) cannot leak from one live history into another,
+        so every reported history replays exactly on its own"""
+        if self.dir != self.root:
+            shutil.rmtree(self.dir, ignore_errors=True)
+        self.count += 1
+        self.dir = os.path.join(self.root, "d%d" % self.count)
+        os.mkdir(self.dir)
 
     def materialise(self, files):
         for n in os.listdir(self.dir):
@@ -156,7 +192,9 @@ class Ctx:
             np.savez(os.path.join(d, "b.npz"), k=np.arange(4, dtype=np.int32), arr_1=np.zeros(2))
             np.save(os.path.join(d, "a.npy"), np.arange(3.0))
             with open(os.path.join(d, "a.bin"), "wb") as f:
-                f.write(b"\x01" * 10)
+                # LONGER than any statistics of this search (2 x 3 float64 = 48 bytes): a raw save
+                # that does not truncate leaves a tail (shorter existing files: sub-check resave)
+                f.write(b"\x01" * 200)
             out = {}
             for n in sorted(os.listdir(d)):
                 with open(os.path.join(d, n), "rb") as f:
@@ -203,10 +241,17 @@ def _expected_npz(prev, key, overwrite):
     return entries, key
 
 
-def _step(ctx, s, op):
+def _step(ctx, s, op, live=False):
+    """live=False (search): the object is deep-copied and the directory re-materialised;
+    live=True (sub-check live_histories): the same object and directory go on"""
     from pydrobert.speech import post
 
-    obj = copy.deepcopy(s.obj)
+    obj = s.obj if live else copy.deepcopy(s.obj)
+    if op[0] == "fresh":
+        # the caller goes on with ANOTHER object that accumulated one piece (live histories only)
+        obj = post.Standardize(norm_var=ctx.norm_var)
+        obj.accumulate(ctx.pieces[op[1]], -1)
+        return St(obj, (op[1],), s.files, s.depth + 1), [], ("fresh",)
     if op[0] == "acc":
         r = computers.call(obj.accumulate, ctx.pieces[op[1]], -1)
         if r[0] != "ok":
@@ -217,7 +262,8 @@ def _step(ctx, s, op):
     target = _kind(name)
     path = os.path.join(ctx.dir, name)
     existed = name in s.files
-    ctx.materialise(s.files)
+    if not live:
+        ctx.materialise(s.files)
     with warnings.catch_warnings():
         warnings.simplefilter("ignore")
         r = computers.call(obj.save, path, key, compress, overwrite)
@@ -331,7 +377,7 @@ def _ops(ctx, s):
         yield op
 
 
-def _initial(ctx):
+def _initial(ctx, files=None):
     from pydrobert.speech import post
 
     obj = post.Standardize(norm_var=ctx.norm_var)
@@ -339,28 +385,66 @@ def _initial(ctx):
     if ctx.c["stats"] != "none":
         acc = (ctx.c["stats"],)
         obj.accumulate(ctx.pieces[ctx.c["stats"]], -1)
-    return St(obj, acc, ctx.initial_files(), 0)
+    return St(obj, acc, ctx.initial_files() if files is None else files, 0)
 
 
-def explore_config(c, seed, replay_ops=None):
+class _Stop(Exception):
+    def __init__(self, viol):
+        Exception.__init__(self)
+        self.viol = viol
+
+
+def _isolated(c, seed, ops):
+    """the history `ops` alone, from the initial state, in a scratch directory of its own (this is
+    also what --replay runs): list of violations"""
     scratch = tempfile.mkdtemp(prefix="verif-")
     try:
         ctx = Ctx(c, seed, scratch)
+        ctx.depth = len(ops) + 1
+        viol, s = [], _initial(ctx)
+        for op in ops:
+            s2, v, _ = _step(ctx, s, op)
+            viol.extend(v)
+            if s2 is None:
+                break
+            s = s2
+    finally:
+        shutil.rmtree(scratch, ignore_errors=True)
+    for v in viol:
+        v["case"] = dict(config=c, ops=[list(o) for o in ops])
+    return viol
+
+
+def explore_config(c, seed, replay_ops=None, stop_at=None):
+    """stop_at=N: re-run the search and return the violations of its N-th transition (replay of
+    a violation that does not show when its history runs alone, see below)"""
+    if replay_ops is not None and stop_at is None:
+        return core.result(_isolated(c, seed, replay_ops))
+    scratch = tempfile.mkdtemp(prefix="verif-")
+    tn = [0]
+    try:
+        ctx = Ctx(c, seed, scratch)
         s0 = _initial(ctx)
-        if replay_ops is not None:
-            viol, s = [], s0
-            ctx.depth = len(replay_ops) + 1
-            for op in replay_ops:
-                s2, v, _ = _step(ctx, s, op)
-                viol.extend(v)
-                if s2 is None:
-                    break
-                s = s2
-            for v in viol:
-                v["case"] = dict(config=c, ops=replay_ops)
-            return core.result(viol)
-        st = explorer.bfs(lambda: s0, lambda s: _ops(ctx, s), lambda s, op: _step(ctx, s, op), _key,
-                          max_states=400000, max_viol=10 ** 9)
+
+        def step(s, op):
+            s2, v, o = _step(ctx, s, op)
+            tn[0] += 1
+            for w in v:
+                w["transition"] = tn[0]
+            if stop_at is not None and tn[0] == stop_at:
+                raise _Stop(v)
+            return s2, v, o
+
+        try:
+            st = explorer.bfs(lambda: s0, lambda s: _ops(ctx, s), step, _key,
+                              max_states=400000, max_viol=10 ** 9)
+        except _Stop as e:
+            for v in e.viol:
+                v["tags"] = dict(v["tags"], needs_other_histories=True)
+                v["case"] = dict(config=c, ops=replay_ops, bfs_transition=stop_at)
+            return core.result(e.viol)
+        if stop_at is not None:
+            return core.result([])
     finally:
         shutil.rmtree(scratch, ignore_errors=True)
     seen, uniq, counts = {}, [], {}
@@ -374,6 +458,21 @@ def explore_config(c, seed, replay_ops=None):
     for v in uniq:
         v["detail"] += " [%d transitions with this signature in this exploration]" % counts[
             core.sig_hash(v["tags"])]
+    # The search runs all its histories in one process and one directory.  A violation is
+    # reported with its history as the case only if that history ALONE reproduces it; otherwise
+    # (state leaking from one history into another outside the object, e.g. keyed by file name)
+    # the case is the search itself up to that transition, which replays exactly.
+    for v in uniq[:40]:
+        h = core.sig_hash(v["tags"])
+        alone = _isolated(c, seed, v["case"]["ops"])
+        if not any(core.sig_hash(w["tags"]) == h for w in alone):
+            v["tags"] = dict(v["tags"], needs_other_histories=True)
+            v["case"] = dict(v["case"], bfs_transition=v["transition"])
+            v["detail"] += " [does not show when this history runs alone in a new process: replayed by " \
+                           "re-running the search up to transition %d]" % v["transition"]
+    uniq = uniq[:40]
+    for v in uniq:
+        v.pop("transition", None)
     saves = sum(1 for o in st.observations if o[0] == "save")
     return core.result(
         uniq, nontrivial=saves > 4, obs=(st.states, len(st.observations)),
@@ -382,6 +481,81 @@ def explore_config(c, seed, replay_ops=None):
         sample=dict(config=c, states=st.states, transitions=st.transitions, max_depth=st.max_depth,
                     closed_within_depth=st.closed, distinct_observations=len(st.observations),
                     violating_transitions=len(st.violations)))
+
+
+# ------------------------------------------------------------------ live histories (no copies)
+#
+# The search above deep-copies the object and re-creates the directory for every transition
+# (that is what makes merging possible), so state that survives OUTSIDE the object - a cache of
+# loaded statistics keyed by file name, a file handle kept open - never meets the same path
+# twice.  Here every sequence of accumulate / save / "go on with another object" calls runs on
+# live objects in ONE directory of its own, from scratch, with the oracle of the search after
+# every save (the reload is part of it: the same path is loaded again and again in one process).
+
+LIVE_LETTERS = [["acc", "pos"], ["acc", "neg"], ["acc", "f32"],
+                ["save", "a.npy", None, False, True], ["save", "a.bin", None, False, True],
+                ["save", "a.npz", None, False, True], ["save", "a.npz", "k", False, False],
+                ["save", "a.npz", None, True, False], ["fresh", "neg"]]
+
+
+def _run_live(ctx, s0_files, ops):
+    """one history on live objects in a new directory; violations carry the shortest prefix"""
+    ctx.new_dir()
+    ctx.materialise(s0_files)
+    s = _initial(ctx, s0_files)
+    viol, obs = [], []
+    for i, op in enumerate(ops):
+        s2, v, o = _step(ctx, s, op, live=True)
+        for w in v:
+            w["case"] = dict(config=ctx.c, ops=[list(x) for x in ops[:i + 1]], live=True)
+            w["tags"] = dict(w["tags"], live=True, saves_before=min(2, sum(1 for x in ops[:i] if x[0] == "save")))
+        viol.extend(v)
+        obs.append(o)
+        if s2 is None:
+            break
+        s = s2
+    return viol, obs
+
+
+def _eval_live(c, seed, replay_ops=None):
+    scratch = tempfile.mkdtemp(prefix="verif-")
+    viol, obs, hists, steps = [], set(), 0, 0
+    try:
+        ctx = Ctx(c, seed, scratch)
+        files = ctx.initial_files()
+        if replay_ops is not None:
+            ctx.depth = len(replay_ops) + 1
+            v, _ = _run_live(ctx, files, replay_ops)
+            return core.result(v)
+        ctx.depth = c["depth"] + 1
+        import itertools
+
+        for rest in itertools.product(LIVE_LETTERS, repeat=c["depth"] - 1):
+            ops = (LIVE_LETTERS[c["first"]],) + rest
+            v, o = _run_live(ctx, files, ops)
+            hists += 1
+            steps += len(o)
+            viol.extend(v)
+            obs.update(o)
+            if len(viol) >= 300:
+                break
+    finally:
+        shutil.rmtree(scratch, ignore_errors=True)
+    seen, uniq = set(), []
+    for v in viol:
+        h = core.sig_hash(v["tags"])
+        if h not in seen:
+            seen.add(h)
+            uniq.append(v)
+    return core.result(uniq, nontrivial=hists > 0, obs=sorted(map(str, obs)), obs_is_set=True, evals=hists,
+                       nontrivial_count=hists, impl_calls=2 * steps,
+                       sample=dict(config=c, histories=hists, steps=steps))
+
+
+def _live_configs(tier):
+    depth = 3 if tier == "quick" else 5
+    return [dict(stats=stats, dir=d, depth=depth, first=i) for stats in ("pos", "none")
+            for d in ("empty", "foreign") for i in range(len(LIVE_LETTERS))]
 
 
 def _configs(tier):
@@ -461,7 +635,26 @@ def _alpha_apply(obj, probes):
     return out
 
 
+_CASE_NO = [0]
+
+
+def _case_dir(scratch):
+    """a directory no earlier case of this process has used (see Ctx.new_dir)"""
+    _CASE_NO[0] += 1
+    d = os.path.join(scratch, "c%d" % _CASE_NO[0])
+    os.mkdir(d)
+    return d
+
+
 def _alpha_one(seed, kind, dtype, n, pres, norm_var, target, scratch):
+    d = _case_dir(scratch)
+    try:
+        return _alpha_one_in(seed, kind, dtype, n, pres, norm_var, target, d)
+    finally:
+        shutil.rmtree(d, ignore_errors=True)
+
+
+def _alpha_one_in(seed, kind, dtype, n, pres, norm_var, target, scratch):
     from pydrobert.speech import post
 
     tkind, name, key, compress = target
@@ -549,6 +742,192 @@ def _replay_alpha(case, seed):
     return core.result(v)
 
 
+# ------------------------------------------------------------------ re-saving over other contents (engine L)
+#
+# "Saving is repeatable: saving again to an existing file of any of these kinds succeeds" - the
+# search above re-saves statistics of ONE feature dimension, so an existing file is always as
+# long as the new contents.  Here the path already holds (a) statistics of ANOTHER dimension F1
+# (wider, narrower, equal; float64 / float32 data) saved there by a real Standardize with the same
+# target arguments, or (b) the bytes another target kind's writer produces for them (numpy.save /
+# numpy.savez / tofile), and a second object with F2 coefficients saves to it.  Oracle: the second
+# save succeeds, the reload (key as the docstring assigns it) has an apply() bit-identical to the
+# second object's, and for .npz with overwrite=False the earlier entries are still there.
+# Out of the lattice (the property leaves it open): an .npz target with overwrite=False over a
+# file that is not an archive ("other key-values will be loaded first if possible").
+
+R_DIMS = (1, 2, 3, 5)
+R_TARGETS = [("npy", "s.npy", None, False, True), ("raw", "s.bin", None, False, True),
+             ("raw", "s.stats", None, False, True)] + \
+            [("npz", "s.npz", key, compress, overwrite) for key in (None, "k") for compress in (False, True)
+             for overwrite in (True, False)]
+R_FIRST = ("object", "npy_bytes", "npz_bytes", "raw_bytes")
+
+
+def _r_data(seed, Fdim, dtype, which):
+    g = sig.signal(seed, 4 * Fdim, offset=55 + which).reshape(4, Fdim)
+    x = g * 2.0 + (1.5 if which == 0 else -3.0)  # first writer: positive sums, second: negative
+    return sig.ro(x.astype(dtype))
+
+
+def _r_one(seed, target, F1, F2, d1, d2, first, scratch):
+    d = _case_dir(scratch)
+    try:
+        return _r_one_in(seed, target, F1, F2, d1, d2, first, d)
+    finally:
+        shutil.rmtree(d, ignore_errors=True)
+
+
+def _r_one_in(seed, target, F1, F2, d1, d2, first, scratch):
+    from pydrobert.speech import post
+
+    tkind, name, key, compress, overwrite = target
+    tags = dict(check="resave", target=tkind, first_writer=first,
+                existing="wider" if F1 > F2 else "narrower" if F1 < F2 else "same_width")
+    if tkind == "npz":
+        tags["overwrite"] = bool(overwrite)
+    case = dict(target=list(target), F1=F1, F2=F2, dtype1=d1, dtype2=d2, first=first)
+    path = os.path.join(scratch, name)
+    if os.path.exists(path):
+        os.remove(path)
+    a, b = post.Standardize(), post.Standardize()
+    a.accumulate(_r_data(seed, F1, d1, 0), -1)
+    b.accumulate(_r_data(seed, F2, d2, 1), -1)
+    if first == "object":
+        r = computers.call(a.save, path, key, compress, overwrite)
+        if r[0] != "ok":
+            return [core.violation(dict(tags, what="first_save_raises", exc=r[1]),
+                                   "save(%r) to a new path raised %s: %s" % (name, r[1], r[2]), case)], None
+        # the first file is loaded once, so that the path has been read before it is saved to again
+        kw1 = dict(force_as="file") if tkind == "raw" else dict(key=key) if key is not None else {}
+        r1 = computers.call(lambda: post.Standardize(path, **kw1))
+        g1 = sig.signal(seed, 3 * F1, offset=58).reshape(3, F1) * 2.0 - 1.0
+        p1 = [(sig.ro(g1), -1)]
+        if r1[0] != "ok" or _alpha_apply(r1[1], p1) != _alpha_apply(a, p1):
+            return [core.violation(dict(tags, what="first_reload_differs"),
+                                   "Standardize(%r) after the first save to a new path: %s" % (
+                                       name, "apply() differs from the saving object's" if r1[0] == "ok" else
+                                       "raised %s: %s" % r1[1:]), case)], None
+    else:
+        # what another kind's writer leaves for the statistics matrix of the first object
+        stats = np.zeros((2, F1 + 1))
+        x = np.asarray(_r_data(seed, F1, d1, 0), dtype=np.float64)
+        stats[0, :-1], stats[1, :-1], stats[0, -1] = x.sum(0), (x * x).sum(0), len(x)
+        buf = io.BytesIO()
+        if first == "npy_bytes":
+            np.save(buf, stats)
+        elif first == "npz_bytes":
+            np.savez(buf, arr_0=stats, other=np.arange(3.0))
+        else:
+            buf.write(stats.tobytes())
+        with open(path, "wb") as f:
+            f.write(buf.getvalue())
+    with open(path, "rb") as f:
+        prev = _decode(name, f.read())
+    with warnings.catch_warnings():
+        warnings.simplefilter("ignore")
+        r = computers.call(b.save, path, key, compress, overwrite)
+    if r[0] != "ok":
+        return [core.violation(dict(tags, what="save_raises", exc=r[1]),
+                               "save(%r, key=%r, compress=%r, overwrite=%r) of %d-coefficient statistics over %s "
+                               "raised %s: %s" % (name, key, compress, overwrite, F2,
+                                                  _r_existing(first, F1), r[1], r[2]), case)], None
+    kw = {}
+    if tkind == "raw":
+        kw["force_as"] = "file"
+    if tkind == "npz":
+        want, used = _expected_npz(prev, key, overwrite)
+        with open(path, "rb") as f:
+            got = _decode(name, f.read())
+        if got[0] != "npz":
+            return [core.violation(dict(tags, what="archive_contents", sub="not_an_archive"),
+                                   "save(%r) over %s did not leave a readable archive" % (
+                                       name, _r_existing(first, F1)), case)], None
+        have = dict(got[1])
+        lost = [k for k, v in want.items() if v is not None and have.get(k) != v]
+        extra = [k for k in have if k not in want]
+        if lost or used not in have or extra:
+            return [core.violation(
+                dict(tags, what="archive_contents",
+                     sub="entries_lost" if lost else "new_entry_name" if used not in have else
+                     "entries_kept" if overwrite else "unexpected_entries"),
+                "save(%r, key=%r, overwrite=%r) over %s: archive has %s, docstring promises %s" % (
+                    name, key, overwrite, _r_existing(first, F1), sorted(have), sorted(want)), case)], None
+        if used != "arr_0":
+            kw["key"] = used
+    how = "Standardize(%r%s)" % (name, "".join(", %s=%r" % kv for kv in sorted(kw.items())))
+    rr = computers.call(lambda: post.Standardize(path, **kw))
+    if rr[0] != "ok":
+        return [core.violation(
+            dict(tags, what="reload_raises", exc=rr[1]),
+            "%s after saving %d-coefficient statistics over %s raised %s: %s (file has %d bytes)" % (
+                how, F2, _r_existing(first, F1), rr[1], rr[2], os.path.getsize(path)), case)], None
+    g = sig.signal(seed, 3 * F2, offset=57).reshape(3, F2) * 2.0 - 1.0
+    probes = [(sig.ro(g), -1), (sig.ro(g[0]), -1), (sig.ro(g.T), 0)]
+    x, y = _alpha_apply(rr[1], probes), _alpha_apply(b, probes)
+    if x != y:
+        i = [p != q for p, q in zip(x, y)].index(True)
+
+        def show(o):
+            return o[1] if o[0] == "exc" else np.frombuffer(o[3], dtype=o[1]).ravel()[:4].tolist()
+        return [core.violation(
+            dict(tags, what="reload_differs"),
+            "%s after saving %d-coefficient statistics over %s: apply(probe %d) gives %r, the saving object %r "
+            "(file has %d bytes)" % (how, F2, _r_existing(first, F1), i, show(x[i]), show(y[i]),
+                                    os.path.getsize(path)), case)], None
+    return [], (tkind, first, tags["existing"], bool(overwrite))
+
+
+def _r_existing(first, F1):
+    return ("a file saved by a Standardize with %d coefficients" % F1 if first == "object" else
+            "the %s of a %d-coefficient statistics matrix" % (first.replace("_", " "), F1))
+
+
+def _r_in_lattice(target, first):
+    tkind, _, _, _, overwrite = target
+    if first == "object":
+        return True
+    if first.startswith(tkind):
+        return False  # the same kind's writer: that is first == "object"
+    if tkind == "npz" and not overwrite:
+        return False  # "loaded first if possible": left open for something that is not an archive
+    return True
+
+
+def _eval_resave(pt, seed):
+    ti, F1, F2 = pt
+    target = R_TARGETS[ti]
+    scratch = tempfile.mkdtemp(prefix="verif-")
+    viol, evals, skipped, obs = [], 0, 0, set()
+    try:
+        for first in R_FIRST:
+            if not _r_in_lattice(target, first):
+                skipped += 1
+                continue
+            for d1 in A_DTYPES:
+                for d2 in A_DTYPES:
+                    v, o = _r_one(seed, target, F1, F2, d1, d2, first, scratch)
+                    evals += 1
+                    viol.extend(v)
+                    if o is not None:
+                        obs.add(o)
+    finally:
+        shutil.rmtree(scratch, ignore_errors=True)
+    return core.result(viol, evals=evals, nontrivial_count=evals, obs=sorted(map(str, obs)), obs_is_set=True,
+                       skipped=skipped or None,
+                       sample=dict(target=list(target), F1=F1, F2=F2,
+                                   inner="first writer {object, npy/npz/raw bytes} x dtype x dtype"))
+
+
+def _replay_resave(case, seed):
+    scratch = tempfile.mkdtemp(prefix="verif-")
+    try:
+        v, _ = _r_one(seed, tuple(case["target"]), case["F1"], case["F2"], case["dtype1"], case["dtype2"],
+                      case["first"], scratch)
+    finally:
+        shutil.rmtree(scratch, ignore_errors=True)
+    return core.result(v)
+
+
 def subchecks(tier, seed):
     cs = _configs(tier)
     return [core.SubCheck(
@@ -561,7 +940,8 @@ def subchecks(tier, seed):
                   initial_dir=["foreign (a.npy, a.bin, a.npz{other,arr_0}, b.npz{k,arr_1})", "empty"],
                   depth=3 if tier == "quick" else 4,
                   accumulate=list(PIECES), saves=SAVES),
-        replay=lambda case: explore_config(case["config"], seed, replay_ops=case["ops"]),
+        replay=lambda case: explore_config(case["config"], seed, replay_ops=case["ops"],
+                                           stop_at=case.get("bfs_transition")),
         chunk=1, kind="explore"),
         core.SubCheck(
             "data_alphabet", [[k, d, n] for k in A_KINDS for d in A_DTYPES for n in A_COUNTS],
@@ -572,4 +952,25 @@ def subchecks(tier, seed):
             axes=dict(kind=list(A_KINDS), dtype=list(A_DTYPES), frames=list(A_COUNTS),
                       presentation=["tensor", "frames"], norm_var=[True, False],
                       target=[list(t) for t in A_TARGETS]),
-            replay=lambda case: _replay_alpha(case, seed))]
+            replay=lambda case: _replay_alpha(case, seed)),
+        core.SubCheck(
+            "live_histories", _live_configs(tier), lambda c: _eval_live(c, seed),
+            "every sequence of `depth` calls over {accumulate x 3 pieces, save x 5 targets, go on with another "
+            "object} on LIVE objects (no deep copies) in one directory of its own, re-executed from scratch; the "
+            "oracle of save_history_bfs after every save (reload of the same path again and again in one "
+            "process)",
+            axes=dict(initial_stats=["pos", "none"], initial_dir=["empty", "foreign"],
+                      depth=3 if tier == "quick" else 5, letters=LIVE_LETTERS),
+            replay=lambda case: _eval_live(case["config"], seed, replay_ops=case["ops"]),
+            kind="explore"),
+        core.SubCheck(
+            "resave", [[ti, F1, F2] for ti in range(len(R_TARGETS)) for F1 in R_DIMS for F2 in R_DIMS],
+            lambda p: _eval_resave(p, seed),
+            "every (target, F1, F2): the path holds statistics of F1 coefficients (saved there by a real object, "
+            "or the bytes of another kind's writer), an object with F2 coefficients saves to it: the save "
+            "succeeds, the reload's apply() of 3 probes is bit-identical to the saving object's, .npz entries as "
+            "the docstring promises; non-trivial = the reload was compared",
+            axes=dict(target=[list(t) for t in R_TARGETS], F1=list(R_DIMS), F2=list(R_DIMS),
+                      first_writer=list(R_FIRST), dtype=list(A_DTYPES),
+                      pruning="npz target with overwrite=False over a non-archive: left open by the docstring"),
+            replay=lambda case: _replay_resave(case, seed))]
